@@ -619,8 +619,19 @@ pub fn check_iter(ev: &Event, kind: u8, calls: &[bool], forget: bool, post: Opti
         let ok = match fin {
             1 => items_match(rem.last().into_iter().collect()),
             2 => o.fin_count == rem.len(),
-            3 => items_match(rem.get(1).into_iter().collect()),
-            4 => items_match(if rem.len() >= 2 { vec![&rem[rem.len() - 2]] } else { vec![] }),
+            3 | 4 => {
+                // nth(1) / nth_back(1) consume two entries (all of them when fewer remain); then one more from the same
+                // end and one from the other end. What comes after a None is only specified for the fused iterators.
+                let seq: Vec<&Ent> = if fin == 3 { rem.iter().collect() } else { rem.iter().rev().collect() };
+                let want_a = seq.get(1).copied();
+                let rest: &[&Ent] = if seq.len() >= 2 { &seq[2..] } else { &[] };
+                let want_b = rest.first().copied();
+                let rest2: &[&Ent] = if rest.is_empty() { &[] } else { &rest[1..] };
+                let want_c = rest2.last().copied();
+                let slot = |y: &Yield, w: Option<&Ent>| -> bool { match w { Some(e) => same(y, e), None => y.none } };
+                let ys = &o.fin_items;
+                ys.len() == 3 && slot(&ys[0], want_a) && (!(fused || want_a.is_some()) || (slot(&ys[1], want_b) && (!(fused || want_b.is_some()) || slot(&ys[2], want_c))))
+            }
             5 => o.fin_hint.0 <= rem.len() && o.fin_hint.1.map_or(true, |u| u >= rem.len()),
             6 | 9 | 12 => items_match(rem.iter().collect()),
             10 | 11 | 13 | 14 | 15 => o.fin_count == rem.len() && o.fin_hint == (0, Some(0)),
